@@ -114,6 +114,8 @@ static struct {
         int call;                         /* index of the current cat_service call */
         unsigned reads, writes, hcalls, vcalls;
         int cbt_done;
+        int last_read_ret;
+        unsigned vw_calls; size_t vw_last;      /* variable WRITE callback: invocations and the length it was told last */
         int wr_byte[2], wr_ret[2];
         unsigned hidx, vidx;
         struct cat_mutex_interface mx;
@@ -196,7 +198,8 @@ static int io_read(char *ch)
         W.reads++;
         /* a finite stream: at most three bytes are available within one call (the code under test reads once per call;
          * a variant that loops over io->read must still terminate here) */
-        if (W.call < CALLS && S.rd_ok[W.call] && W.reads <= 3 * (W.call + 1)) { *ch = (char)S.rd_ch[W.call]; return 1; }
+        if (W.call < CALLS && S.rd_ok[W.call] && W.reads <= 3 * (W.call + 1)) { *ch = (char)S.rd_ch[W.call]; W.last_read_ret = 1; return 1; }
+        W.last_read_ret = 0;
         return 0;
 }
 static int io_write(char ch)
@@ -256,7 +259,7 @@ static int v_cb(void)
         W.vcalls++;
         return r;
 }
-static int v_write(const struct cat_variable *v, const size_t n) { (void)v; (void)n; return v_cb(); }
+static int v_write(const struct cat_variable *v, const size_t n) { (void)v; W.vw_calls++; W.vw_last = n; return v_cb(); }
 static int v_read(const struct cat_variable *v) { (void)v; return v_cb(); }
 
 #define BSZ (BUFSZ > 0 ? BUFSZ : S.bufsize)
@@ -284,7 +287,8 @@ static void build_descriptor(void)
                 W.cmd[i].implicit_write = (S.fl[i] & 4) != 0;
                 W.cmd[i].need_all_vars = (S.fl[i] & 8) != 0;
         }
-        W.cmd[1].description = S.desc_present ? "dsc" : NULL;
+        W.cmd[1].description = (S.desc_present & 1) ? "dsc" : NULL;
+        W.cmd[0].description = (S.desc_present & 2) ? "help" : NULL;    /* the variable-less command: its TEST answer is name= + description */
         for (i = 0; i < 6; i++) {
                 W.var[i].type = types[i];
                 W.var[i].data = &G_vm[i].b[0]; /* aligned base; the bytes behind data_size are canaries */
@@ -326,7 +330,7 @@ static void assume_descriptor(void)
                 if (S.fl[i] & 4) ASSUME((S.hm[i] & 14) == 0);
         }
         ASSUME((S.fl[0] & 4) == 0 && (S.fl[1] & 4) == 0); /* only +CD may be implicit-write in this family */
-        ASSUME(S.gd[0] <= 1 && S.gd[1] <= 1 && S.desc_present <= 1);
+        ASSUME(S.gd[0] <= 1 && S.gd[1] <= 1 && S.desc_present <= 3);
         for (i = 0; i < 3; i++) ASSUME(S.vds[i] >= 1 && S.vds[i] <= 4);          /* numeric: 1,2,4 and the unsupported 3 */
         for (i = 3; i < 5; i++) ASSUME(S.vds[i] >= 1 && S.vds[i] <= MAXDS);
         for (i = 0; i < 6; i++) ASSUME(S.vacc[i] <= 2 && S.vcb[i] <= 3 && S.vname[i] <= 1);
@@ -848,6 +852,17 @@ static void scen_run(void)
                         CHK(C13, u->state == CAT_UNSOLICITED_STATE_IDLE, "the event in progress did not end after its final line");
         }
 
+        /* ---- C20 (no stale state reaches a callback): the length handed to a variable write callback is determined by the argument
+         *      just parsed - 0 for a read-only variable, data_size for a stored number - never by what an earlier line left behind ---- */
+#if defined(VSEL)
+        if (STATE == CAT_STATE_PARSE_WRITE_ARGS && W.vw_calls == 1 && (VSEL == 0 || VSEL == 1 || VSEL == 2 || VSEL == 5)) {
+                if (S.vacc[VSEL] == CAT_VAR_ACCESS_READ_ONLY)
+                        CHK(C20, W.vw_last == 0, "the write callback of a read-only variable was told a length left over from earlier input");
+                else
+                        CHK(C20, W.vw_last == W.var[VSEL].data_size, "the write callback of a numeric variable was not told data_size");
+        }
+#endif
+
         /* ---- C14: hold ------------------------------------------------------------------------------- */
         if (STATE == CAT_STATE_HOLD) {
                 /* the only release request that can arise inside cat_service: an event handler returning HOLD_EXIT_OK / HOLD_EXIT_ERROR */
@@ -912,6 +927,10 @@ static void scen_run(void)
         if (pre_uflush && W.writes == 0)
                 CHK(C15, o->unsolicited_fsm.state != CAT_UNSOLICITED_STATE_FLUSH_IO_WRITE || o->unsolicited_fsm.write_state != SNAP.unsolicited_fsm.write_state ||
                          o->unsolicited_fsm.write_buf != SNAP.unsolicited_fsm.write_buf, "event flush at a section end made no progress");
+        /* OK means "nothing left without new stimulus": a call that was handed an input byte cannot know that the input is dry -
+         * it may report OK only if it made no read attempt or its last attempt was refused (any byte counts, NUL included) */
+        if (r == CAT_STATUS_OK)
+                CHK(C15, W.reads == 0 || W.last_read_ret == 0, "OK reported by a call that consumed an input byte without finding the input dry (pending bytes would be left unread)");
         /* waiting for input is not work: a reading state whose read is refused, with no event queued or in progress, reports OK
          * (otherwise a caller polling "until OK" spins forever on an unterminated line) */
         if (cmd_reads_input(STATE) && !S.rd_ok[0] && USTATE == CAT_UNSOLICITED_STATE_IDLE && SNAP.unsolicited_fsm.unsolicited_cmd_buffer_items_count == 0 && !W.cbt_done)
@@ -969,7 +988,7 @@ static void scen_sample(void)
         S.ubsize = (unsigned char)rnd(UB + 1);
         for (i = 0; i < NCMD; i++) { S.fl[i] = (unsigned char)(rnd(3) ? 0 : rnd(16)); S.hm[i] = (unsigned char)(rnd(3) ? 15 : rnd(16)); if (S.fl[i] & 4) S.hm[i] &= 1; }
         S.fl[0] &= ~4; S.fl[1] &= ~4;
-        S.gd[0] = (unsigned char)(rnd(6) == 0); S.gd[1] = (unsigned char)(rnd(6) == 0); S.desc_present = (unsigned char)rnd(2);
+        S.gd[0] = (unsigned char)(rnd(6) == 0); S.gd[1] = (unsigned char)(rnd(6) == 0); S.desc_present = (unsigned char)rnd(4);
         for (i = 0; i < 3; i++) S.vds[i] = (unsigned char)(1 + rnd(4));
         for (i = 3; i < 5; i++) S.vds[i] = (unsigned char)(1 + rnd(MAXDS));
         for (i = 0; i < 6; i++) { S.vacc[i] = (unsigned char)rnd(3); S.vcb[i] = (unsigned char)rnd(4); S.vname[i] = (unsigned char)rnd(2); }
